@@ -545,7 +545,69 @@ def unit_bounded_lengths(U):
                     fails.append({"case": {"call": name, "order_by": repr(ob), "reverse": rev}, "expected": "ids %r sorted by end - start (%s)" % (want_ids, "descending" if rev else "ascending"), "observed": [(i, ln[i]) for i in got]})
     U.bounded_result("C11.bounded.lengths", "order_by 'length' sorts by the stored end - start, reversed coordinates included", "8 features (3 with start > end) x 5 order_by forms x reverse x 2 entry points", cases, fails)
 
-UNITS = [("bounded.lengths", unit_bounded_lengths), ("bounded.odd_featuretypes", unit_bounded_odd_featuretypes), ("bounded.after_imports", unit_bounded_after_imports), ("schema", unit_schema), ("order", unit_order), ("where", unit_where), ("counts", unit_counts), ("bounded", unit_bounded)]
+def unit_update_keeps_position(U):
+    """'with no order_by a full iteration is in input order' also after a stored feature has been written back: the
+    write-back of FeatureDB._update (used by add_relation's parent_func / child_func and by merge_all) is ONE statement
+    'UPDATE features SET <the twelve columns> WHERE id = ?' with the feature's astuple() + [id] - an UPDATE keeps the row
+    (its rowid = its place in the scan) where INSERT OR REPLACE / DELETE + INSERT would move it to the end"""
+    import gffutils.feature as F
+    from contracts import importer as IM
+    it = Interp()
+    it.contracts[B.bins] = bins_contract
+    IM.install_json(it)
+
+    def run(ctx):
+        f, fv = IM.sym_feature("f", {"ID": [IM.sval("f.ID")[0]]})
+        conn = ghostdb.GhostConn()
+        db = blank_db(conn)
+        f.id = IM.sval("f.id")[0]
+        tup = [SStr([Val(z3.String("col.%s" % c))]) for c in constants._keys]       # astuple() by its contract (C01.columns): one value per column, in column order
+        it.contracts[F.Feature.astuple] = lambda interp, a, k: tuple(tup) if a and a[0] is f else (_ for _ in ()).throw(Undecided("astuple of another object"))
+        ctx.stash.update(f=f, conn=conn, tup=tup)
+        it.call(I.FeatureDB._update, [db, f, conn.cursor()], {})
+
+    def replay(m):
+        mk = lambda i, s: F.Feature(seqid="c", featuretype="t", start=s, end=s + 5, attributes={"ID": [i]})
+        db = gffutils.create_db([mk("a", 50), mk("b", 10), mk("c", 30)], ":memory:")
+        before = [x.id for x in db.all_features()]
+        db.add_relation("a", "b", 1, parent_func=lambda p, c: p, child_func=I.assign_child)
+        after = [x.id for x in db.all_features()]
+        after_fo = [x.id for x in db.all_features(order_by="file_order")]
+        return {"inputs": "a, b, c imported in this order; add_relation(a, b, parent_func, child_func) writes a and b back", "expected": before, "observed": [after, after_fo],
+                "violates": after != before or after_fo != before}
+    for p in U.explore(run, it):
+        ok = False
+        if p.kind == "return":
+            cls = IM.classify([e for e in p.ctx.effects if e[0] in ("execute", "executemany", "executescript")])
+            wr = [c for c in cls if c.kind not in ("select", "noeffect")]
+            f = p.ctx.stash["f"]
+            if len(wr) == 1 and wr[0].kind == "update" and wr[0].table == "features" and wr[0].how == "execute" and wr[0].stmt is not None:
+                txt = " ".join(str(wr[0].raw).split())
+                setcols = txt[len("UPDATE features SET "):].split(" WHERE ")[0] if txt.startswith("UPDATE features SET ") and " WHERE " in txt else ""
+                cols = [c.split("=")[0].strip() for c in setcols.split(",")]
+                where = txt.split(" WHERE ")[-1].strip() if " WHERE " in txt else ""
+                args = list(wr[0].args) if isinstance(wr[0].args, (list, tuple)) else []
+                tup = p.ctx.stash["tup"]
+                ok = (cols == list(constants._keys) and where == "id = ?" and len(args) == len(tup) + 1 and all(a is b for a, b in zip(args, tup + [f.id])))
+        U.prove("C11.update.keeps_position#p%d" % p.index, "_update writes a feature back with exactly one 'UPDATE features SET <all columns> WHERE id = ?' (astuple() + [id]): the row keeps its place in the scan - no INSERT / REPLACE / DELETE",
+                [], z3.BoolVal(bool(ok)), {}, replay=replay)
+
+
+def _same(a, b):
+    if a is b:
+        return True
+    try:
+        from pyvc.core import Sym
+        if isinstance(a, Sym) or isinstance(b, Sym):
+            za = a.z3() if hasattr(a, "z3") else getattr(a, "e", None)
+            zb = b.z3() if hasattr(b, "z3") else getattr(b, "e", None)
+            return za is not None and zb is not None and za.eq(zb)
+        return a == b
+    except Exception:
+        return False
+
+
+UNITS = [("update.keeps_position", unit_update_keeps_position), ("bounded.lengths", unit_bounded_lengths), ("bounded.odd_featuretypes", unit_bounded_odd_featuretypes), ("bounded.after_imports", unit_bounded_after_imports), ("schema", unit_schema), ("order", unit_order), ("where", unit_where), ("counts", unit_counts), ("bounded", unit_bounded)]
 
 
 def replay_file(doc):
